@@ -26,12 +26,12 @@ let () =
         let spec_ld = c15_logdens fops nd nb li lm s in
         let det_s = c15_det_S fops nd nk nbs nrc lu lv lr in
         Caseio.out_begin c.id;
-        Caseio.out_mat "ld" (colvec ld);
-        Caseio.out_mat "dn" (colvec dn);
-        Caseio.out_mat "ldu" (colvec ldu);
-        Caseio.out_mat "dnu" (colvec dnu);
+        Caseio.out_mat_shape "ld" b 1 (colvec ld);
+        Caseio.out_mat_shape "dn" b 1 (colvec dn);
+        Caseio.out_mat_shape "ldu" b 1 (colvec ldu);
+        Caseio.out_mat_shape "dnu" b 1 (colvec dnu);
         Caseio.out_mat "S" (mat_of_lmx s);
-        Caseio.out_mat "spec_ld" (colvec spec_ld);
+        Caseio.out_mat_shape "spec_ld" b 1 (colvec spec_ld);
         Caseio.out_num "det_S" (fl det_s);
         Caseio.out_end ()
       end
